@@ -162,4 +162,171 @@ theorem publish_phase {c c1 : Cli.State} {v : Srv.State} {now : Nat} {key appS :
   · rw [hv3, hv1]
   · rw [hv3]; simp [mapInsert, mapGet]
 
+/-! ### the server's banner -/
+
+theorem cli_steps_cons {c c1 c2 : Cli.State} {now : Nat} {m : Msg} {ms : List Msg} {r1 r2 : List Cli.Res}
+    (h1 : CliSteps.stepMsg c now m = .ok (c1, r1)) (h2 : CliSteps.steps c1 now ms = .ok (c2, r2)) :
+    CliSteps.steps c now (m :: ms) = .ok (c2, r1 ++ r2) := by
+  simp only [CliSteps.steps, h1, h2]
+
+def peerBw (n : Nat) : RtmpMsg := .setPeerBandwidth n .dynamic
+def onBwDone : RtmpMsg := .amf0Command (str "onBWDone") 0 .null [.number 0x40C0000000000000]
+
+theorem setcs_range {ser ser' : Ser.State} {n ts : Nat} {p : Ser.Packet} (h : Ser.setMaxChunkSize ser n ts = .ok (ser', p)) :
+    1 ≤ n ∧ n ≤ 2147483647 := by
+  unfold Ser.setMaxChunkSize at h
+  split at h
+  · simp at h
+  · rename_i hn; simp only [maxChunkSize] at hn; omega
+
+/-- what `ServerSession::new` returned and put on the wire -/
+theorem new_ok {cfg : Srv.Config} {now : Nat} {v0 : Srv.State} {rs0 : List Srv.Res} (h : Srv.new cfg now = .ok (v0, rs0)) :
+    ∃ p1 p2 p3 p4 b3 b4 rest restR,
+      rs0 = [.out p1, .out p2, .out p3, .out p4] ++ restR ∧
+      (1 ≤ cfg.chunkSize ∧ cfg.chunkSize ≤ 2147483647) ∧
+      toPayload (streamBegin 0) = .ok (4, b3) ∧ toPayload (peerBw cfg.peerBandwidth) = .ok (6, b4) ∧
+      Emits {} v0.ser ([(p1, { ts := 0, typ := 1, msid := 0, data := be32 cfg.chunkSize }),
+                        (p2, { ts := epoch now, typ := 5, msid := 0, data := be32 cfg.windowAckSize }),
+                        (p3, { ts := epoch now, typ := 4, msid := 0, data := b3 }),
+                        (p4, { ts := epoch now, typ := 6, msid := 0, data := b4 })] ++ rest) ∧
+      ((cfg.sendOnBwDone = false ∧ rest = [] ∧ restR = []) ∨
+       (cfg.sendOnBwDone = true ∧ ∃ p5 b5, toPayload onBwDone = .ok (20, b5) ∧ restR = [.out p5] ∧
+          rest = [(p5, { ts := epoch now, typ := 20, msid := 0, data := b5 })])) ∧
+      v0 = { ({ fmsVersion := cfg.fmsVersion } : Srv.State) with ser := v0.ser } := by
+  unfold Srv.new at h
+  simp only at h
+  split at h
+  · simp at h
+  · simp at h
+  · rename_i ser1 p1 hset
+    have hrange := setcs_range hset
+    have e1 := Emits.setcs hset (by decide)
+    split at h
+    · simp at h
+    · rename_i s2 p2 hs2
+      obtain ⟨t2, b2, hp2, he2, hq2⟩ := srv_send_exact hs2 trivial (epoch_lt now) (by decide)
+      simp only [toPayload, Except.ok.injEq, Prod.mk.injEq] at hp2
+      obtain ⟨rfl, rfl⟩ := hp2
+      split at h
+      · simp at h
+      · rename_i s3 p3 hs3
+        obtain ⟨t3, b3, hp3, he3, hq3⟩ := srv_send_exact hs3 trivial (epoch_lt now) (by decide)
+        have ht3 := uc_typ hp3; subst ht3
+        split at h
+        · simp at h
+        · rename_i s4 p4 hs4
+          obtain ⟨t4, b4, hp4, he4, hq4⟩ := srv_send_exact hs4 trivial (epoch_lt now) (by decide)
+          have ht4 : t4 = 6 := by
+            simp only [toPayload, Except.ok.injEq, Prod.mk.injEq] at hp4; exact hp4.1.symm
+          subst ht4
+          have e4 := ((e1.trans he2).trans he3).trans he4
+          split at h
+          · rename_i hbw
+            split at h
+            · simp at h
+            · rename_i s5 p5 hs5
+              obtain ⟨t5, b5, hp5, he5, hq5⟩ := srv_send_exact hs5 trivial (epoch_lt now) (by decide)
+              have ht5 := cmd_typ hp5; subst ht5
+              simp only [Except.ok.injEq, Prod.mk.injEq] at h
+              obtain ⟨h1, h2⟩ := h
+              subst h1; subst h2
+              refine ⟨p1, p2, p3, p4, b3, b4, [(p5, _)], [.out p5], rfl, hrange, hp3, hp4, ?_, Or.inr ⟨hbw, p5, b5, hp5, rfl, rfl⟩, ?_⟩
+              · exact e4.trans he5
+              · rw [hq5, hq4, hq3, hq2]
+          · rename_i hbw
+            simp only [Except.ok.injEq, Prod.mk.injEq] at h
+            obtain ⟨h1, h2⟩ := h
+            subst h1; subst h2
+            refine ⟨p1, p2, p3, p4, b3, b4, [], [], rfl, hrange, hp3, hp4, ?_, Or.inl ⟨by simpa using hbw, rfl, rfl⟩, ?_⟩
+            · simpa using e4
+            · rw [hq4, hq3, hq2]
+
+theorem cli_step_peerBw (c : Cli.State) (now n ts msid : Nat) (body : Bytes) (hn : n < 4294967296)
+    (hp : toPayload (peerBw n) = .ok (6, body)) :
+    CliSteps.stepMsg c now { ts := ts, typ := 6, msid := msid, data := body } =
+      .ok (c, [.unhandled { ts := ts, typ := 6, msid := msid, data := body }]) := by
+  have hw : C13.WF (peerBw n) := by unfold peerBw C13.WF C13.U32; exact hn
+  rw [cli_stepMsg_of hw hp]
+  simp only [peerBw, Cli.handleMessage]
+
+theorem chm_other (c : Cli.State) (now : Nat) (p : Msg) (name : Bytes) (tid : Nat) (obj : Val) (args : List Val)
+    (h1 : name ≠ str "_result") (h2 : name ≠ str "_error") (h3 : name ≠ str "onStatus") :
+    Cli.handleMessage c now p (.amf0Command name tid obj args) =
+      (c, .ok [.ev (.unhandleableCommand name tid obj args)]) := by
+  unfold Cli.handleMessage; dsimp only; rw [if_neg h1, if_neg h2, if_neg h3]
+
+theorem cli_step_onBwDone (c : Cli.State) (now ts msid : Nat) (body : Bytes) (hp : toPayload onBwDone = .ok (20, body)) :
+    CliSteps.stepMsg c now { ts := ts, typ := 20, msid := msid, data := body } =
+      .ok (c, [.ev (.unhandleableCommand (str "onBWDone") 0 .null [.number 0x40C0000000000000])]) := by
+  have hw : C13.WF onBwDone := by
+    unfold onBwDone C13.WF
+    exact ⟨by decide, by decide, trivial, by show (4665729213955833856 : Nat) < _; decide, trivial⟩
+  rw [cli_stepMsg_of hw hp]
+  unfold onBwDone
+  rw [chm_other _ _ _ _ _ _ _ (by decide) (by decide) (by decide)]
+
+/-- the events the banner raises at a client: the bandwidth message is handed up unhandled, and so is
+    `onBWDone` when the server is configured to send it -/
+def bannerEvents (scfg : Srv.Config) (now : Nat) (b4 : Bytes) : List Cli.Res :=
+  .unhandled { ts := epoch now, typ := 6, msid := 0, data := b4 } ::
+    (if scfg.sendOnBwDone then [.ev (.unhandleableCommand (str "onBWDone") 0 .null [.number 0x40C0000000000000])] else [])
+
+def bytesS (rs : List Srv.Res) : Bytes := ((SrvEmit.outs rs).map (·.bytes)).flatten
+def bytesC (rs : List Cli.Res) : Bytes := ((CliEmit.outs rs).map (·.bytes)).flatten
+
+/-- **banner phase.**  A new server session and a new client session: once the packets the server's
+    constructor returned are delivered, the two are in step; the client has adopted the server's chunk
+    size and window, raised no protocol event and sent nothing. -/
+theorem banner_phase {scfg : Srv.Config} {now : Nat} {v0 : Srv.State} {rs0 : List Srv.Res} (ccfg : Cli.Config)
+    (hnew : Srv.new scfg now = .ok (v0, rs0)) (hw : scfg.windowAckSize < 4294967296) (hbw : scfg.peerBandwidth < 4294967296) :
+    ∃ c1 b4, CliPart.drain ({ cfg := ccfg } : Cli.State) now (bytesS rs0) = (c1, .ok (bannerEvents scfg now b4)) ∧
+      InStep c1 v0 ∧
+      c1 = { ({ cfg := ccfg } : Cli.State) with window := some scfg.windowAckSize, des := c1.des } ∧
+      v0 = { ({ fmsVersion := scfg.fmsVersion } : Srv.State) with ser := v0.ser } := by
+  obtain ⟨p1, p2, p3, p4, b3, b4, rest, restR, hrs, hcs, hp3, hp4, hem, hrest, hv0⟩ := new_ok hnew
+  have s1 := cli_step_setcs ({ cfg := ccfg } : Cli.State) now scfg.chunkSize 0 hcs
+  have hlink0 : Linked ({} : Ser.State) ({ cfg := ccfg } : Cli.State).des := linked_init
+  rcases hrest with ⟨hf, hr1, hr2⟩ | ⟨ht, p5, b5, hp5, hr2, hr1⟩
+  · subst hr1; subst hr2
+    have hsteps := cli_steps_cons s1 (cli_steps_cons (cli_step_windowAck _ now scfg.windowAckSize (epoch now) hw)
+      (cli_steps_cons (cli_step_streamBegin _ now 0 (epoch now) 0 4 b3 (by decide) hp3)
+        (cli_steps_one _ _ now _ _ (cli_step_peerBw _ now scfg.peerBandwidth (epoch now) 0 b4 hbw hp4))))
+    simp only [List.append_nil] at hem
+    obtain ⟨core', hd, hl⟩ := cli_recv now hlink0 hem hsteps
+    refine ⟨?c1, b4, ?g1, ?g2, ?g3, hv0⟩
+    case g1 =>
+      have hb : bytesS rs0 = wire [(p1, ({ ts := 0, typ := 1, msid := 0, data := be32 scfg.chunkSize } : Msg)),
+          (p2, { ts := epoch now, typ := 5, msid := 0, data := be32 scfg.windowAckSize }),
+          (p3, { ts := epoch now, typ := 4, msid := 0, data := b3 }),
+          (p4, { ts := epoch now, typ := 6, msid := 0, data := b4 })] := by
+        rw [hrs]; simp [bytesS, SrvEmit.outs, wire]
+      have hev : bannerEvents scfg now b4 = [.unhandled { ts := epoch now, typ := 6, msid := 0, data := b4 }] := by
+        simp [bannerEvents, hf]
+      simp only [List.nil_append] at hd
+      rw [hb, hev]; exact hd
+    case g2 => exact ⟨by rw [hv0]; exact linked_init, hl⟩
+    case g3 => rfl
+  · subst hr1; subst hr2
+    have hsteps := cli_steps_cons s1 (cli_steps_cons (cli_step_windowAck _ now scfg.windowAckSize (epoch now) hw)
+      (cli_steps_cons (cli_step_streamBegin _ now 0 (epoch now) 0 4 b3 (by decide) hp3)
+        (cli_steps_cons (cli_step_peerBw _ now scfg.peerBandwidth (epoch now) 0 b4 hbw hp4)
+          (cli_steps_one _ _ now _ _ (cli_step_onBwDone _ now (epoch now) 0 b5 hp5)))))
+    simp only [List.cons_append, List.nil_append] at hem
+    obtain ⟨core', hd, hl⟩ := cli_recv now hlink0 hem hsteps
+    refine ⟨?c1', b4, ?g1', ?g2', ?g3', hv0⟩
+    case g1' =>
+      have hb : bytesS rs0 = wire [(p1, ({ ts := 0, typ := 1, msid := 0, data := be32 scfg.chunkSize } : Msg)),
+          (p2, { ts := epoch now, typ := 5, msid := 0, data := be32 scfg.windowAckSize }),
+          (p3, { ts := epoch now, typ := 4, msid := 0, data := b3 }),
+          (p4, { ts := epoch now, typ := 6, msid := 0, data := b4 }),
+          (p5, { ts := epoch now, typ := 20, msid := 0, data := b5 })] := by
+        rw [hrs]; simp [bytesS, SrvEmit.outs, wire]
+      have hev : bannerEvents scfg now b4 = [.unhandled { ts := epoch now, typ := 6, msid := 0, data := b4 },
+          .ev (.unhandleableCommand (str "onBWDone") 0 .null [.number 0x40C0000000000000])] := by
+        simp [bannerEvents, ht]
+      simp only [List.nil_append, List.cons_append] at hd
+      rw [hb, hev]; exact hd
+    case g2' => exact ⟨by rw [hv0]; exact linked_init, hl⟩
+    case g3' => rfl
+
 end Rml.Workflow
